@@ -1142,6 +1142,9 @@ def install(symbolic: bool = True) -> None:
     if any(m == 'pymap' or m.startswith('pymap.') for m in sys.modules):
         raise RuntimeError('pymap imported before the instrumented loader')
     sys.dont_write_bytecode = True
+    # the hooks add up to one frame per call in instrumented code: scale the limit so that a recursion the real
+    # code survives (limit 1000) is not cut short here; a counterexample is replayed on the real code anyway
+    sys.setrecursionlimit(max(sys.getrecursionlimit(), 2500))
     if REPO not in sys.path:
         sys.path.insert(0, REPO)
     sys.meta_path.insert(0, _Finder())
